@@ -27,15 +27,18 @@ def _flat(x):
 
 
 def objective_value(name: str, x):
-    v = _flat(x)
-    if name == "sphere": return float(sum(t * t for t in v))
-    if name == "rastrigin": return float(10 * len(v) + sum(t * t - 10 * math.cos(2 * math.pi * t) for t in v))
-    if name == "step": return float(sum(math.floor(t) ** 2 for t in v))                   # plateaus: many exact ties
-    if name == "linear": return float(sum((i + 1) * t for i, t in enumerate(v)))          # negative costs, optimum on the boundary
-    if name == "shifted": return float(sum((t - 0.3) ** 2 for t in v) - 7.5)              # negative optimum
-    if name == "abs": return float(sum(abs(t) for t in v))
-    if name == "const": return 1.0
-    if name == "multi2": return [float(sum(t * t for t in v)), float(sum((t - 1) ** 2 for t in v))]
+    """total functions of the position (IEEE arithmetic, never raising): inf / nan propagate instead"""
+    with np.errstate(all="ignore"):
+        v = np.array(_flat(x), dtype=np.float64)
+        n = len(v)
+        if name == "sphere": return float(np.sum(v * v))
+        if name == "rastrigin": return float(10 * n + np.sum(v * v - 10 * np.cos(2 * np.pi * v)))
+        if name == "step": return float(np.sum(np.floor(v) * np.floor(v)))                # plateaus: many exact ties
+        if name == "linear": return float(np.sum((np.arange(n) + 1) * v))                 # negative costs, optimum on the boundary
+        if name == "shifted": return float(np.sum((v - 0.3) * (v - 0.3)) - 7.5)           # negative optimum
+        if name == "abs": return float(np.sum(np.abs(v)))
+        if name == "const": return 1.0
+        if name == "multi2": return [float(np.sum(v * v)), float(np.sum((v - 1) * (v - 1)))]
     raise ValueError(name)
 
 
